@@ -2,7 +2,8 @@
 //!
 //! Every case is a sequence of calls on one `DictBuilder` (`read_conn` of a matrix text,
 //! `read_lexicon` of CSV bytes, `resolve`; usually read_conn -> read_lexicon -> resolve, but also
-//! several lexicon parts with a `resolve` after none/some/all of them, `read_conn` late or twice)
+//! several lexicon parts with a `resolve` after none/some/all of them, `read_conn` late or twice,
+//! a `read_conn` whose `Err` the caller ignores and then goes on: `Op::ConnIgn`)
 //! followed by `compile`.  The real builder is run under `catch_unwind`, every CSV text is split
 //! into records by the real `csv` crate with the reader options of `LexiconReader::read_bytes`,
 //! and the records go to the Lean model on the case line.
@@ -79,6 +80,35 @@ pub fn probe_resolved_flag() -> &'static str {
     if body.contains("self.resolved=false") { "fix" } else { "cur" }
 }
 
+/// which of the repairs N1, N3, S4, S5, S6 the linked builder has — probed by BEHAVIOUR (the
+/// witnesses of the five findings on the real `DictBuilder`), so the flags follow whatever form
+/// the repair takes in the source: one character per repair, '1' = repaired
+pub fn probe_fixes(system: Option<&JapaneseDictionary>) -> String {
+    let row = |s: &str, l: i64, r: i64| format!("{},{},{},100,{},名詞,普通名詞,一般,*,*,*,{},{},*,A,*,*,*,*\n", s, l, r, s, s, s);
+    let sys_case = |ops: Vec<Op>| Case { conn: None, csv: vec![], resolve: false, ops: Some(ops), desc: "probe".into(), user: false, ks: None, twice: false, tag: "probe".into() };
+    let conn = |m: &str| Op::Conn(m.as_bytes().to_vec());
+    let ign = |m: &str| Op::ConnIgn(m.as_bytes().to_vec());
+    let lex = |t: String| Op::Lex(t.into_bytes());
+    let is_err = |o: &Out, k: &str| matches!(o, Out::Err { kind, .. } if kind == k);
+    // N1: no read_conn at all, a row with ids (0, 0): rejected by validate_entries after the repair
+    let n1 = is_err(&run_pipeline(&sys_case(vec![lex(row("あ", 0, 0))]), None, None).0, "InvalidFieldSize");
+    // N3: read_conn("9 9") on a user builder over the 3x3 system dictionary, a row with ids (5, 5)
+    let n3 = match system {
+        Some(sys) => { let mut c = sys_case(vec![conn("9 9\n"), lex(row("大阪", 5, 5))]); c.user = true; is_err(&run_pipeline(&c, Some(sys), None).0, "InvalidFieldSize") }
+        None => false,
+    };
+    // S4: a second text that lists no cell: the matrix that is written is all zeros after the repair
+    let s4 = match &run_pipeline(&sys_case(vec![conn("2 2\n0 0 7\n1 1 9\n"), conn("2 2\n"), lex(row("あ", 0, 0))]), None, None).0 {
+        Out::Ok { bytes, .. } => read_bin(bytes).map_or(false, |d| d.cells.iter().all(|&c| c == 0)),
+        _ => false,
+    };
+    // S5: the correct text is accepted after a call that failed on a line
+    let s5 = matches!(run_pipeline(&sys_case(vec![ign("2 2\n0 0 x\n"), conn("2 2\n0 0 1\n"), lex(row("あ", 0, 0))]), None, None).0, Out::Ok { .. });
+    // S6: a read_conn that failed after resizing the matrix to 1x1: ids (2, 2) are rejected after the repair
+    let s6 = is_err(&run_pipeline(&sys_case(vec![conn("3 3\n"), ign("1 1\n0 0 x\n"), lex(row("あ", 2, 2))]), None, None).0, "InvalidFieldSize");
+    [n1, n3, s4, s5, s6].iter().map(|&b| if b { '1' } else { '0' }).collect()
+}
+
 // ---------------------------------------------------------------------------------------------
 // sinks
 
@@ -140,9 +170,18 @@ impl Write for FailingWriter {
 /// one call on the builder before `compile`
 #[derive(Clone, Debug, PartialEq)]
 pub enum Op {
+    /// `read_conn(text)?`
     Conn(Vec<u8>),
+    /// `let _ = read_conn(text)`: an `Err` is ignored, the builder is used further
+    ConnIgn(Vec<u8>),
     Lex(Vec<u8>),
     Resolve,
+}
+
+impl Op {
+    fn conn_text(&self) -> Option<&Vec<u8>> {
+        match self { Op::Conn(m) | Op::ConnIgn(m) => Some(m), _ => None }
+    }
 }
 
 #[derive(Clone)]
@@ -222,9 +261,11 @@ fn err_of(e: &SudachiError) -> (String, Option<usize>) {
 const EPOCH: u64 = 1_600_000_000;
 
 /// the real pipeline; `sink` = Some((k, style)) writes into a sink that fails after k bytes
-fn run_pipeline(c: &Case, system: Option<&JapaneseDictionary>, sink: Option<(usize, usize)>) -> Out {
+/// second component: the results of the ignored `read_conn` calls that were made, in order
+fn run_pipeline(c: &Case, system: Option<&JapaneseDictionary>, sink: Option<(usize, usize)>) -> (Out, Vec<String>) {
     let stage: Cell<&'static str> = Cell::new("conn");
     let at: Cell<usize> = Cell::new(0);
+    let ign: std::cell::RefCell<Vec<String>> = std::cell::RefCell::new(vec![]);
     let ops = c.ops();
     let r = catch(|| -> Result<(Vec<u8>, usize, usize, Option<String>), (String, Option<usize>)> {
         macro_rules! body {
@@ -238,6 +279,14 @@ fn run_pipeline(c: &Case, system: Option<&JapaneseDictionary>, sink: Option<(usi
                         Op::Conn(m) => {
                             stage.set("conn");
                             $b.read_conn(&m[..]).map_err(|e| err_of(&e))?;
+                        }
+                        Op::ConnIgn(m) => {
+                            stage.set("conn");
+                            let r = $b.read_conn(&m[..]);
+                            ign.borrow_mut().push(match r {
+                                Ok(()) => "ok".to_string(),
+                                Err(e) => match err_of(&e) { (k, Some(l)) if k != "Io" => format!("err:{}:{}", k, l), (k, _) => format!("err:{}", k) },
+                            });
                         }
                         Op::Lex(d) => {
                             stage.set("lex");
@@ -285,11 +334,39 @@ fn run_pipeline(c: &Case, system: Option<&JapaneseDictionary>, sink: Option<(usi
             }
         }
     });
-    match r {
+    let out = match r {
         Err(msg) => Out::Panic { stage: stage.get(), at: at.get(), msg },
         Ok(Err((kind, line))) => Out::Err { stage: stage.get(), at: at.get(), kind, line },
         Ok(Ok((bytes, len, res, again))) => Out::Ok { bytes, len, res, again },
+    };
+    (out, ign.into_inner())
+}
+
+/// what a NEW system-dictionary builder answers to `read_conn(text)` (for the retry oracle)
+fn fresh_read_conn(text: &[u8]) -> String {
+    match catch(|| DictBuilder::new_system().read_conn(text).map_err(|e| err_of(&e))) {
+        Err(_) => "PANIC".to_string(),
+        Ok(Ok(())) => "ok".to_string(),
+        Ok(Err((k, Some(l)))) if k != "Io" => format!("err:{}:{}", k, l),
+        Ok(Err((k, _))) => format!("err:{}", k),
     }
+}
+
+/// the matrix a text describes, read naively: sizes from the first non-blank line, every further
+/// line `left right cost` sets one cell, all other cells are 0 (None = the text is not of that form)
+fn naive_matrix(text: &[u8]) -> Option<(i64, i64, Vec<i16>)> {
+    let s = std::str::from_utf8(text).ok()?;
+    let mut lines = s.lines().filter(|l| !l.trim().is_empty());
+    let hd: Vec<i64> = lines.next()?.split_whitespace().map(|x| x.parse::<i64>()).collect::<Result<_, _>>().ok()?;
+    if hd.len() != 2 || hd[0] < 0 || hd[1] < 0 || hd[0] > 2000 || hd[1] > 2000 { return None; }
+    let (nl, nr) = (hd[0], hd[1]);
+    let mut cells = vec![0i16; (nl * nr) as usize];
+    for l in lines {
+        let it: Vec<i64> = l.split_whitespace().map(|x| x.parse::<i64>()).collect::<Result<_, _>>().ok()?;
+        if it.len() != 3 || it[0] < 0 || it[1] < 0 || it[0] >= nl || it[1] >= nr || it[2] < -32768 || it[2] > 32767 { return None; }
+        cells[(it[1] * nl + it[0]) as usize] = it[2] as i16;
+    }
+    Some((nl, nr, cells))
 }
 
 // ---------------------------------------------------------------------------------------------
@@ -317,6 +394,8 @@ pub struct BinDict {
     pub pos: Vec<Vec<String>>,
     pub nl: i16,
     pub nr: i16,
+    /// the connection costs as stored (cell index = right * nl + left)
+    pub cells: Vec<i16>,
     pub trie_len: usize,
     pub table: Vec<u8>,
     pub params: Vec<(i16, i16, i16)>,
@@ -375,7 +454,7 @@ pub fn read_bin(bytes: &[u8]) -> Result<BinDict, String> {
     if d.nl < 0 || d.nr < 0 {
         return Err("negative matrix size".into());
     }
-    c.take(2 * d.nl as usize * d.nr as usize)?;
+    d.cells = c.take(2 * d.nl as usize * d.nr as usize)?.chunks(2).map(|x| i16::from_le_bytes([x[0], x[1]])).collect();
     let tsize = c.u32()? as usize;
     d.trie_len = tsize * 4;
     c.take(d.trie_len)?;
@@ -931,10 +1010,41 @@ fn directed(i: usize) -> Option<Case> {
                 _ => { let mut c = base("compile-twice", m22, two.clone()); c.twice = true; c }
             }
         }
+        // ---- the matrix buffer between calls: stale cells (S4), stale line (S5), stale sizes (S6); no matrix (N1)
+        58..=69 => {
+            let lex = |rows: Vec<Row>| Op::Lex(csv_bytes(&rows));
+            let conn = |m: &str| Op::Conn(m.as_bytes().to_vec());
+            let ign = |m: &str| Op::ConnIgn(m.as_bytes().to_vec());
+            let mk = |tag: &str, ops: Vec<Op>| { let mut c = base(tag, m22, vec![]); c.ops = Some(ops); c };
+            let m22a = "2 2\n0 0 7\n1 1 9\n";
+            match i {
+                // the second text lists no cell: the costs 7 and 9 of the first are still in the matrix
+                58 => mk("s4-stale-cells", vec![conn(m22a), conn("2 2\n"), lex(two.clone()), Op::Resolve]),
+                59 => mk("s4-stale-cells-shrink-grow", vec![conn(m22a), conn("1 1\n"), conn("2 2\n1 0 5\n"), lex(two.clone()), Op::Resolve]),
+                // a call that failed on a line leaves it in the line buffer: the correct text is rejected
+                60 => mk("s5-retry-fails", vec![ign("2 2\n0 0 x\n"), conn("2 2\n0 0 1\n"), lex(two.clone()), Op::Resolve]),
+                // ... and an invalid text is accepted (5 x 7)
+                61 => mk("s5-invalid-accepted", vec![ign("5 \n"), conn("7\n0 0 1\n"), lex(vec![row("あ", 4, 6)]), Op::Resolve]),
+                // an I/O error (invalid UTF-8) leaves nothing behind
+                62 => mk("s5-io-error-then-valid", vec![Op::ConnIgn(vec![b'2', b' ', b'2', b'\n', 0xff, b'\n']), conn(m22), lex(two.clone()), Op::Resolve]),
+                // a failure after the header: the matrix is already 1x1, the ids are still checked against 3x3
+                63 => mk("s6-failed-read-conn", vec![conn("3 3\n"), ign("1 1\n0 0 x\n"), lex(vec![row("あ", 2, 2)]), Op::Resolve]),
+                // a failure before the header is complete leaves the 3x3 matrix alone
+                64 => mk("s6-failed-header", vec![conn("3 3\n2 2 8\n"), ign("x\n"), lex(vec![row("あ", 2, 2)]), Op::Resolve]),
+                65 => { let mut c = mk("user-failed-read-conn", vec![ign("9 9\n0 0 x\n"), lex(vec![row("大阪", 5, 5)]), Op::Resolve]); c.user = true; c }
+                // no matrix at all: rows that are not indexed are fine, an indexed one is outside the 0x0 matrix
+                66 => mk("n1-no-conn-unindexed", vec![lex(vec![row("あ", -1, -1)]), Op::Resolve]),
+                67 => mk("n1-no-conn-mixed", vec![lex(vec![row("あ", -1, -1), row("い", 0, 0)]), Op::Resolve]),
+                // only a read_conn that failed before the header
+                68 => mk("n1-only-failed-conn", vec![ign("x\n"), lex(vec![row("あ", 0, 0)]), Op::Resolve]),
+                // the ignored call succeeds: same as read_conn(..)?
+                _ => mk("ign-succeeds", vec![ign(m22), lex(two.clone()), Op::Resolve]),
+            }
+        }
         _ => return None,
     })
 }
-const DIRECTED: usize = 58;
+const DIRECTED: usize = 70;
 
 fn inline_of(q: &Row) -> String {
     format!("{},{},{},{},{},{},{},{}", q[0], q[5], q[6], q[7], q[8], q[9], q[10], q[11])
@@ -1048,9 +1158,49 @@ fn gen_multipart(rng: &mut Rng) -> Case {
     }
 }
 
+/// 1-4 `read_conn` calls on one builder (valid texts, texts that list only some cells or none,
+/// malformed texts; the `Err` of a call propagated or ignored), then a lexicon whose ids fit the
+/// sizes of one of the texts
+fn gen_connseq(rng: &mut Rng) -> Case {
+    let user = rng.chance(1, 6);
+    let k = rng.range(1, 4);
+    let mut ops: Vec<Op> = vec![];
+    let mut dims: Vec<(usize, usize)> = vec![];
+    let mut tag = format!("connseq{}", k);
+    for _ in 0..k {
+        let nl = rng.range(1, 5);
+        let nr = if rng.chance(5, 6) { nl } else { rng.range(1, 5) };
+        dims.push((nl, nr));
+        let (mut text, bad): (Vec<u8>, bool) = match rng.below(12) {
+            0..=4 => (matrix_text(nl, nr, rng).into_bytes(), false),
+            5 => (format!("{} {}\n", nl, nr).into_bytes(), false),
+            // a text cut off in the header / one number per line: what a failed call leaves in the line buffer matters
+            6 => (format!("{} \n", nl).into_bytes(), true),
+            7 => (format!("{}\n0 0 1\n", nr).into_bytes(), true),
+            _ => { let (m, t) = malform_matrix(rng, nl, nr); tag.push(':'); tag.push_str(t); (m.into_bytes(), true) }
+        };
+        if rng.chance(1, 14) { mutate_bytes(rng, &mut text); }
+        let ign = if bad { rng.chance(5, 6) } else { rng.chance(1, 5) };
+        ops.push(if ign { Op::ConnIgn(text) } else { Op::Conn(text) });
+    }
+    let (rl, rr) = if user && rng.chance(2, 3) { (SYS_N, SYS_N) } else if rng.chance(2, 3) { *dims.last().unwrap() } else { *rng.pick(&dims[..]) };
+    let n = rng.range(1, 4);
+    let mut rows: Vec<Row> = (0..n).map(|_| valid_row(rng, rl, rr)).collect();
+    if rows.iter().all(|r| r[1].starts_with('-')) { rows[0][1] = "0".into(); rows[0][2] = "0".into(); }
+    if rng.chance(1, 3) { rows[0][1] = (rl - 1).to_string(); rows[0][2] = (rr - 1).to_string(); }
+    let lex = Op::Lex(csv_bytes(&rows));
+    if rng.chance(1, 6) { let at = rng.below(ops.len()); ops.insert(at, lex); } else { ops.push(lex); }
+    ops.push(Op::Resolve);
+    Case {
+        conn: None, csv: vec![], resolve: false, ops: Some(ops), desc: "verif".into(), user,
+        ks: if rng.chance(1, 6) { Some(vec![usize::MAX]) } else { None }, twice: rng.chance(1, 5), tag,
+    }
+}
+
 fn gen_case(rng: &mut Rng, idx: usize) -> Case {
     if let Some(c) = directed(idx) { return c; }
-    let kind = rng.below(108);
+    let kind = rng.below(116);
+    if kind >= 108 { return gen_connseq(rng); }
     if kind >= 100 { return gen_multipart(rng); }
     let square = rng.chance(11, 12);
     let nl = rng.range(1, 5);
@@ -1121,8 +1271,13 @@ fn gen_case(rng: &mut Rng, idx: usize) -> Case {
 fn show_out(o: &Out, bin: Option<&BinDict>) -> String {
     match o {
         Out::Ok { len, res, .. } => match bin {
-            Some(d) => format!("ok len={} res={} words={} pos={} dims={}x{}", len, res, d.infos.len(), d.pos.len(), d.nl, d.nr),
-            None => format!("ok len={} res={} words=? pos=? dims=?", len, res),
+            Some(d) => {
+                // digest of the matrix content: cells that are not 0, weighted sum of the stored (unsigned) values
+                let nz = d.cells.iter().filter(|&&c| c != 0).count();
+                let sum = d.cells.iter().enumerate().fold(0u64, |a, (i, &c)| (a + (i as u64 + 1) * (c as u16 as u64)) % 1000003);
+                format!("ok len={} res={} words={} pos={} dims={}x{} mx={}:{}", len, res, d.infos.len(), d.pos.len(), d.nl, d.nr, nz, sum)
+            }
+            None => format!("ok len={} res={} words=? pos=? dims=? mx=?", len, res),
         },
         Out::Err { stage, at, kind, line } => {
             // a failure before `compile` names the position of the failing call
@@ -1191,7 +1346,7 @@ build error other than the generic arity error; distinct by case line".into();
     let sys = {
         let mut c = Case { conn: Some(sys_matrix().into_bytes()), csv: sys_csv().into_bytes(), resolve: true, ops: None, desc: "sys".into(), user: false, ks: None, twice: false, tag: "sys".into() };
         c.resolve = true;
-        match run_pipeline(&c, None, None) {
+        match run_pipeline(&c, None, None).0 {
             Out::Ok { bytes, .. } => match load(&cfg, bytes.clone(), vec![]) {
                 Ok(dic) => {
                     let upos = SYS_POS.iter().map(|p| p.iter().map(|s| hexs(s)).collect::<Vec<_>>().join(":")).collect::<Vec<_>>().join(";");
@@ -1204,6 +1359,10 @@ build error other than the generic arity error; distinct by case line".into();
         }
     };
 
+    // N1, N3, S4, S5, S6: which repairs the linked builder has (by behaviour)
+    let fx = probe_fixes(sys.as_ref().map(|s| &s.dic));
+    run.extra.insert("variant_n1_n3_s4_s5_s6".into(), serde_json::json!(fx));
+
     let n = run.opts.count;
     for idx in 0..n {
         if !run.wants(idx) { continue; }
@@ -1214,7 +1373,7 @@ build error other than the generic arity error; distinct by case line".into();
         let sysdic = sysd.map(|s| &s.dic);
 
         // the real implementation, unlimited sink
-        let out = run_pipeline(&case, sysdic, None);
+        let (out, ign_trace) = run_pipeline(&case, sysdic, None);
         let ops = case.ops();
         let per_op: Vec<Option<Recs>> = ops.iter().map(|o| match o { Op::Lex(d) => Some(split_csv(d)), _ => None }).collect();
         // the records of all lexicon parts in order (= the entries of the builder when every call succeeded)
@@ -1227,7 +1386,25 @@ build error other than the generic arity error; distinct by case line".into();
             }
             all
         };
-        let first_conn: Option<Vec<u8>> = ops.iter().find_map(|o| match o { Op::Conn(m) => Some(m.clone()), _ => None });
+        // the read_conn calls that were made, in order: (position, text, result; "ok" for a `?` call that was passed)
+        let executed = match &out { Out::Ok { .. } => ops.len(), Out::Err { at, .. } | Out::Panic { at, .. } => *at };
+        let conn_calls: Vec<(usize, &Vec<u8>, String)> = {
+            let mut v = vec![];
+            let mut j = 0;
+            for (i, o) in ops.iter().enumerate() {
+                if i > executed { break; }
+                match o {
+                    Op::Conn(m) if i < executed => v.push((i, m, "ok".to_string())),
+                    Op::Conn(m) => if let Out::Err { stage, .. } = &out { if *stage == "conn" { v.push((i, m, short_out(&out))); } },
+                    Op::ConnIgn(m) => if let Some(r) = ign_trace.get(j) { v.push((i, m, r.clone())); j += 1; },
+                    _ => {}
+                }
+            }
+            v
+        };
+        // a matrix text was accepted / the Err of a read_conn was ignored
+        let has_conn = conn_calls.iter().any(|c| c.2 == "ok");
+        let failed_ign = ops.iter().zip(0..).any(|(o, i)| matches!(o, Op::ConnIgn(_)) && conn_calls.iter().any(|c| c.0 == i && c.2 != "ok"));
         let bin = match &out { Out::Ok { bytes, .. } => read_bin(bytes).ok(), _ => None };
         let trie_len = bin.as_ref().map_or(0, |b| b.trie_len);
 
@@ -1254,7 +1431,7 @@ build error other than the generic arity error; distinct by case line".into();
                 ks_token = join(ks.iter(), ",");
             }
         }
-        let sink_outs: Vec<Out> = ks.iter().map(|&k| run_pipeline(&case, sysdic, Some((k, k + idx)))).collect();
+        let sink_outs: Vec<Out> = ks.iter().map(|&k| run_pipeline(&case, sysdic, Some((k, k + idx))).0).collect();
 
         // ---------------- case line
         let mut nd: Vec<u32> = vec![];
@@ -1263,6 +1440,7 @@ build error other than the generic arity error; distinct by case line".into();
         nd.dedup();
         let ops_tok = ops.iter().zip(&per_op).map(|(o, r)| match (o, r) {
             (Op::Conn(m), _) => format!("C{}", hex(m)),
+            (Op::ConnIgn(m), _) => format!("I{}", hex(m)),
             (Op::Resolve, _) => "R".to_string(),
             (Op::Lex(_), Some(r)) => format!("L{}!{}!{}", r.csverr.map_or("-".to_string(), |l| l.to_string()), join(r.lines.iter(), ","),
                 r.recs.iter().map(|x| x.iter().map(|f| hexs(f)).collect::<Vec<_>>().join(":")).collect::<Vec<_>>().join(";")),
@@ -1273,14 +1451,17 @@ build error other than the generic arity error; distinct by case line".into();
             None => ("-".to_string(), String::new(), String::new()),
         };
         let payload = format!(
-            "v={} rf={} nd={} user={} upos={} usys={} ops={} desc={} trie={} ks={}",
-            variant, rf, join(nd.iter(), ","), user_tok, upos, usys, ops_tok, case.desc.len(), trie_len, ks_token
+            "v={} rf={} fx={} nd={} user={} upos={} usys={} ops={} desc={} trie={} ks={}",
+            variant, rf, fx, join(nd.iter(), ","), user_tok, upos, usys, ops_tok, case.desc.len(), trie_len, ks_token
         );
 
         // canonical answer: a key with a NUL byte handed to the trie builder is outside the
         // builder's contract (it panics or silently builds a corrupt trie): both count as NULKEY
         let reached_index_with_nul = nul_indexed && match &out { Out::Ok { .. } => true, Out::Panic { stage, .. } => *stage == "compile", _ => false };
         let mut answer = if reached_index_with_nul { "NULKEY".to_string() } else { show_out(&out, bin.as_ref()) };
+        if ops.iter().any(|o| matches!(o, Op::ConnIgn(_))) {
+            answer.push_str(&format!(" ign={}", ign_trace.join(",")));
+        }
         if !ks.is_empty() {
             let items: Vec<String> = sink_outs.iter().map(|o| if nul_indexed && matches!(o, Out::Ok { .. } | Out::Panic { .. }) { "NULKEY".to_string() } else { short_out(o) }).collect();
             answer.push_str(&format!(" sink={}", rle(&items)));
@@ -1302,7 +1483,9 @@ build error other than the generic arity error; distinct by case line".into();
         if case.user { run.bump("user-dictionary"); }
         if recs.csverr.is_some() { run.bump("csv-reader-error"); }
         if case.ops.is_some() {
-            run.bump(&format!("calls:{}", ops.iter().map(|o| match o { Op::Conn(_) => 'C', Op::Lex(_) => 'L', Op::Resolve => 'R' }).collect::<String>()));
+            run.bump(&format!("calls:{}", ops.iter().map(|o| match o { Op::Conn(_) => 'C', Op::ConnIgn(_) => 'I', Op::Lex(_) => 'L', Op::Resolve => 'R' }).collect::<String>()));
+            if failed_ign { run.bump("ignored-read-conn-error"); }
+            if conn_calls.iter().filter(|c| c.2 == "ok").count() > 1 { run.bump("matrix-read-more-than-once"); }
         }
         if case.twice && matches!(out, Out::Ok { .. }) { run.bump("compiled-twice"); }
         run.bump_by("sink-faults", ks.len() as u64);
@@ -1319,7 +1502,7 @@ build error other than the generic arity error; distinct by case line".into();
         if let Out::Panic { stage, at, msg } = &out {
             let class = match *stage {
                 "conn" => {
-                    let m = match ops.get(*at) { Some(Op::Conn(m)) => m.clone(), _ => vec![] };
+                    let m = match ops.get(*at).and_then(|o| o.conn_text()) { Some(m) => m.clone(), None => vec![] };
                     if blank_text(&m) { "empty-text" } else if conn_has_bad_coord(&m) { "coord-out-of-range" } else { "other" }
                 }
                 "compile" => {
@@ -1333,6 +1516,45 @@ build error other than the generic arity error; distinct by case line".into();
         // ---------------- oracle 1b: `compile` does not consume the builder: a second call writes the same bytes
         if let Out::Ok { again: Some(what), .. } = &out {
             run.fail(idx, "valid:compile-not-repeatable", what);
+        }
+
+        // ---------------- oracle 1c: read_conn is a function of its text (independent of the model: a NEW
+        // builder is asked the same text).  A call made after a call whose Err was ignored must answer
+        // what a new builder answers (S5: the line buffer keeps the line the failed call stopped on)
+        {
+            let mut failed_before = false;
+            for (i, m, r) in &conn_calls {
+                if case.user { break; }
+                let fresh = fresh_read_conn(m);
+                if *r != fresh {
+                    let key = if failed_before { "valid:conn-retry:stale-line" } else { "valid:conn-retry" };
+                    run.fail(idx, key, &format!("call {}: read_conn({:?}) answers {} but a new builder answers {}{}", i, String::from_utf8_lossy(m).chars().take(60).collect::<String>(), r, fresh,
+                        if failed_before { " (an earlier read_conn on this builder failed and its Err was ignored)" } else { "" }));
+                    break;
+                }
+                if r != "ok" { failed_before = true; }
+            }
+        }
+        // ---------------- oracle 1d: the matrix that is written is the matrix of the text read last
+        // (sizes and every cell; a cell the text does not list is 0) - S4: Vec::resize keeps old cells
+        if let (Out::Ok { .. }, Some(d)) = (&out, bin.as_ref()) {
+            if let Some((i, m, _)) = conn_calls.iter().rev().find(|c| c.2 == "ok") {
+                let earlier = conn_calls.iter().any(|c| c.0 < *i);
+                let earlier_failed = conn_calls.iter().any(|c| c.0 < *i && c.2 != "ok");
+                // a later call that failed after its header has resized the buffer (S6 family; judged by the id oracle)
+                let later_failed = conn_calls.iter().any(|c| c.0 > *i);
+                if let (Some((nl, nr, cells)), false) = (naive_matrix(m), later_failed) {
+                    if (d.nl as i64, d.nr as i64) != (nl, nr) {
+                        let key = if earlier_failed { "valid:conn-dims:stale-line" } else { "valid:conn-dims" };
+                        run.fail(idx, key, &format!("the text read last declares a {}x{} matrix, the dictionary has {}x{}", nl, nr, d.nl, d.nr));
+                    } else if d.cells != cells {
+                        let at = d.cells.iter().zip(&cells).position(|(a, b)| a != b).unwrap_or(0);
+                        let key = if earlier { "valid:conn-cells:stale" } else { "valid:conn-cells" };
+                        run.fail(idx, key, &format!("cell {} of the {}x{} matrix is {} in the dictionary, the text read last (call {}) says {}{}", at, nl, nr, d.cells[at], i, cells[at],
+                            if earlier { " (an earlier read_conn wrote that cell: resize keeps it)" } else { "" }));
+                    }
+                }
+            }
         }
 
         // ---------------- oracle 2: a sink failure is never success, never a panic
@@ -1369,12 +1591,12 @@ build error other than the generic arity error; distinct by case line".into();
 
         // ---------------- oracle 3: success => valid dictionary, loads, analyses
         if let Out::Ok { bytes, .. } = &out {
-            validity(run, idx, &case, first_conn.is_some(), bytes, bin.as_ref(), &recs, sysd, &cfg, &mut rng, nul_indexed);
+            validity(run, idx, &case, has_conn, failed_ign, bytes, bin.as_ref(), &recs, sysd, &cfg, &mut rng, nul_indexed);
         }
     }
 }
 
-fn validity(run: &mut Run, idx: usize, case: &Case, has_conn: bool, bytes: &[u8], bin: Option<&BinDict>, recs: &Recs, sysd: Option<&SysDict>, cfg: &str, rng: &mut Rng, nul_indexed: bool) {
+fn validity(run: &mut Run, idx: usize, case: &Case, has_conn: bool, failed_ign: bool, bytes: &[u8], bin: Option<&BinDict>, recs: &Recs, sysd: Option<&SysDict>, cfg: &str, rng: &mut Rng, nul_indexed: bool) {
     let d = match bin {
         Some(d) => d,
         None => {
@@ -1390,9 +1612,12 @@ fn validity(run: &mut Run, idx: usize, case: &Case, has_conn: bool, bytes: &[u8]
     let n_pos = if user { SYS_POS.len() + d.pos.len() } else { d.pos.len() };
     let mut d3 = false;
     let no_matrix = !user && !has_conn;
+    let mut no_matrix_bad = false;
     // a user-dictionary builder on which read_conn was called
-    let user_conn = user && has_conn;
+    let user_conn = user && (has_conn || failed_ign);
     let mut user_conn_bad = false;
+    // a read_conn failed after it had resized the matrix and the caller went on (system builder)
+    let mut failed_conn_bad = false;
     let mut nonsquare_bad = false;
     let mut dicform_user = false;
     // (1) connection ids of indexed entries
@@ -1403,10 +1628,14 @@ fn validity(run: &mut Run, idx: usize, case: &Case, has_conn: bool, bytes: &[u8]
             d3 = true;
             run.fail(idx, "valid:right-id-negative", &format!("entry {} is indexed (left id {}) with right id {}: read back as {} at analysis", i, l, r, r as i16 as u16));
         } else if (l >= nl || r >= nr) && no_matrix {
+            no_matrix_bad = true;
             run.fail(idx, "valid:conn-id-range:no-matrix-read", &format!("entry {}: ids ({}, {}) but no matrix was read: a 0x0 matrix is written and the ids are validated against i16::MAX", i, l, r));
         } else if (l >= nl || r >= nr) && user_conn {
             user_conn_bad = true;
             run.fail(idx, "valid:conn-id-range:user-matrix-read", &format!("user-dictionary entry {}: ids ({}, {}) are outside the {}x{} matrix of the system dictionary: read_conn on the user builder replaced the sizes the ids are validated against by {}x{}", i, l, r, nl, nr, d.nl, d.nr));
+        } else if (l >= nl || r >= nr) && failed_ign {
+            failed_conn_bad = true;
+            run.fail(idx, "valid:conn-id-range:failed-matrix-read", &format!("entry {}: ids ({}, {}) are outside the {}x{} matrix that is written: a read_conn failed after it had resized the matrix, its Err was ignored, and the ids are still validated against the sizes of the matrix read before", i, l, r, nl, nr));
         } else if l >= nl || r >= nr {
             run.fail(idx, "valid:conn-id-range", &format!("entry {}: ids ({}, {}) outside the {}x{} matrix", i, l, r, nl, nr));
         } else if r >= nl || l >= nr {
@@ -1539,7 +1768,7 @@ fn validity(run: &mut Run, idx: usize, case: &Case, has_conn: bool, bytes: &[u8]
         for m in [Mode::A, Mode::B, Mode::C] {
             analysed += 1;
             let r = tokenize(&dic, t, m);
-            let class = if no_matrix { "no-matrix-read" } else if user_conn_bad { "user-matrix-read" } else if nonsquare_bad { "nonsquare-matrix" } else if d3 { "right-id-negative" } else if dicform_user { "userdict-dicform" }
+            let class = if no_matrix_bad { "no-matrix-read" } else if user_conn_bad { "user-matrix-read" } else if failed_conn_bad { "failed-matrix-read" } else if nonsquare_bad { "nonsquare-matrix" } else if d3 { "right-id-negative" } else if dicform_user { "userdict-dicform" }
                 else if illformed_split { "ill-formed-split" } else if nul_indexed { "nul-in-surface" } else { "other" };
             let (key, what) = match r {
                 Ok(Ok(toks)) => {
